@@ -217,7 +217,7 @@ func TestC13Patterns(t *testing.T) {
 							pattern[i] = uk
 						}
 					}
-					variant := idx % 15 // error handler {option, option replaced by setter, unset, option+re-entrant alert, option cleared by setter(nil)} x handlers {0, 1, 3}
+					variant := idx % 30 // (>= 15: plus a resumable SubscribeWithReplay subscriber of every type) x error handler {option, option replaced by setter, unset, option+re-entrant alert, option cleared by setter(nil)} x handlers {0, 1, 3}
 					runPattern(run, pattern, variant)
 				}
 			}
@@ -228,6 +228,8 @@ func TestC13Patterns(t *testing.T) {
 }
 
 func runPattern(run *vk.Run, pattern []int, variant int) {
+	replaySub := variant >= 15
+	variant %= 15
 	ehMode := variant % 5 // 3: an error handler that publishes an alert event on the same bus; 4: cleared with SetPersistenceErrorHandler(nil)
 	nH := variant / 5
 	if nH == 2 {
@@ -251,7 +253,7 @@ func runPattern(run *vk.Run, pattern []int, variant int) {
 		}
 	}
 	w.faults.ByKind["append"] = fa
-	opts := []ebu.Option{ebu.WithStore(stores.Wrap(w.mem, w.faults))}
+	opts := []ebu.Option{ebu.WithStore(stores.Wrap(w.mem, w.faults)), ebu.WithSubscriptionStore(ebu.NewMemoryStore())}
 	if ehMode == 0 {
 		opts = append(opts, ebu.WithPersistenceErrorHandler(w.onErr))
 	}
@@ -277,8 +279,19 @@ func runPattern(run *vk.Run, pattern []int, variant int) {
 		w.bus.SetPersistenceErrorHandler(nil) // detached again: failures are then simply not reported
 	}
 	subscribeAll(w, nH)
+	if replaySub {
+		// resumable subscribers: their live handlers are handlers of the publish like any other
+		rctx := context.Background()
+		ebu.SubscribeWithReplay(rctx, w.bus, "c13-flex", func(flex) { w.handled[3].Add(1) })
+		ebu.SubscribeWithReplay(rctx, w.bus, "c13-chan", func(withChan) { w.handled[3].Add(1) })
+		ebu.SubscribeWithReplay(rctx, w.bus, "c13-func", func(withFunc) { w.handled[3].Add(1) })
+		ebu.SubscribeWithReplay(rctx, w.bus, "c13-bad", func(badMarshal) { w.handled[3].Add(1) })
+		ebu.SubscribeWithReplay(rctx, w.bus, "c13-cyc", func(*cyc) { w.handled[3].Add(1) })
+		ebu.SubscribeWithReplay(rctx, w.bus, "c13-inv", func(invalidJSON) { w.handled[3].Add(1) })
+		ebu.SubscribeWithReplay(rctx, w.bus, "c13-ptr", func(*ptrMarshal) { w.handled[3].Add(1) })
+	}
 	ebu.Subscribe(w.bus, func(alert) { alerts++ })
-	sig := fmt.Sprintf("%v|eh%d|h%d", pattern, ehMode, nH)
+	sig := fmt.Sprintf("%v|eh%d|h%d|r%v", pattern, ehMode, nH, replaySub)
 	witness := map[string]any{"pattern": pattern, "error_handler": []string{"option", "option replaced by setter", "unset", "option, publishes an alert", "set, then cleared with SetPersistenceErrorHandler(nil)"}[ehMode], "handlers": nH}
 	viol := func(rule, desc string) {
 		witness["store_ops"] = w.faults.Snapshot()
@@ -290,7 +303,7 @@ func runPattern(run *vk.Run, pattern []int, variant int) {
 		id := i + 1
 		ev := mkEvent(k, id)
 		errBefore := len(w.errCalls)
-		var h0 [3]int32
+		var h0 [4]int32
 		for j := range h0 {
 			h0[j] = w.handled[j].Load()
 		}
@@ -329,6 +342,11 @@ func runPattern(run *vk.Run, pattern []int, variant int) {
 		for j := 0; j < nH; j++ {
 			if d := w.handled[j].Load() - h0[j]; d != 1 {
 				viol("handler-missed-event", fmt.Sprintf("publish #%d (kind %d): handler %d received the event %d times", id, k, j, d))
+			}
+		}
+		if replaySub {
+			if d := w.handled[3].Load() - h0[3]; d != 1 {
+				viol("handler-missed-event", fmt.Sprintf("publish #%d (kind %d): the live handler of the SubscribeWithReplay subscription received the event %d times", id, k, d))
 			}
 		}
 		newErr := w.errCalls[errBefore:]
